@@ -21,20 +21,20 @@ fn log(kind: u8, arg: u64) { unsafe { if CL.n < LOGN { CL.kind[CL.n] = kind; CL.
 fn fault() -> bool { unsafe { CL.faults && tape::stub_u8() & 3 == 0 } }
 
 pub(crate) struct ARadio { lead: u32, buffer: u32 }
-#[derive(Debug)] pub(crate) struct AErr;
+#[derive(Debug)] pub(crate) struct AErr(u8);   // not zero-sized (Kani 0.68 loses the Ok path of Result<(), ZST> in some code shapes; DESIGN 15)
 impl radio::PhyRxTx for ARadio {
     type PhyError = AErr;
     const MAX_RADIO_POWER: u8 = 14;
-    fn tx(&mut self, _config: radio::TxConfig, _buf: &[u8]) -> Result<u32, AErr> { unsafe { CL.tx_calls += 1; } log(1, 0); if fault() { Err(AErr) } else { Ok(tape::stub_u8() as u32) } }
+    fn tx(&mut self, _config: radio::TxConfig, _buf: &[u8]) -> Result<u32, AErr> { unsafe { CL.tx_calls += 1; } log(1, 0); if fault() { Err(AErr(1)) } else { Ok(tape::stub_u8() as u32) } }
     fn setup_rx(&mut self, config: radio::RxConfig) -> Result<(), AErr> {
         // argument logged: RX frequency in the low half, the extra listening time handed to the radio (Single{ms}) in the high half
         let ms = match config.mode { radio::RxMode::Single { ms } => ms as u64, radio::RxMode::Continuous => 0xffff_ffff };
         log(2, config.rf.frequency as u64 | ms << 32);
-        unsafe { CL.setups += 1; } if fault() { Err(AErr) } else { Ok(()) } }
-    fn rx_continuous(&mut self, _rx_buf: &mut [u8]) -> Result<(usize, radio::RxQuality), AErr> { Err(AErr) }
+        unsafe { CL.setups += 1; } if fault() { Err(AErr(1)) } else { Ok(()) } }
+    fn rx_continuous(&mut self, _rx_buf: &mut [u8]) -> Result<(usize, radio::RxQuality), AErr> { Err(AErr(1)) }
     fn rx_single(&mut self, _buf: &mut [u8]) -> Result<radio::RxStatus, AErr> {
         log(3, 0);
-        if fault() { return Err(AErr); }
+        if fault() { return Err(AErr(1)); }
         if unsafe { CL.stray } && tape::stub_bool() {
             // the radio writes the packet to the front of the buffer it was given and reports its length and quality
             let n = (tape::stub_u8() % 32) as usize; let b0 = tape::stub_u8(); let snr = tape::stub_u8() as i8;
@@ -43,7 +43,7 @@ impl radio::PhyRxTx for ARadio {
             Ok(radio::RxStatus::Rx(n, radio::RxQuality::new(0, snr)))
         } else { Ok(radio::RxStatus::RxTimeout) }
     }
-    fn low_power(&mut self) -> Result<(), AErr> { log(4, 0); if fault() { Err(AErr) } else { Ok(()) } }
+    fn low_power(&mut self) -> Result<(), AErr> { log(4, 0); if fault() { Err(AErr(1)) } else { Ok(()) } }
 }
 // a board may declare a listen buffer shorter than its lead time (trait doc: buffer < lead time); the two are independent inputs
 impl Timings for ARadio {
